@@ -5,8 +5,8 @@ import re
 from engine import graph, tlc
 
 SPEC = "OrmSession"
-ALL_ACTS = ["SetV", "SetPk", "Sp", "Expunge", "Expire", "Refresh", "Get", "Close", "MakeTransient", "Fail", "Misuse"]
-DEV_ALL = ["a", "b", "c", "d", "e", "f1", "f2", "g", "h", "gsw", "eoc", "ksw", "kswx", "kswmerge"]
+ALL_ACTS = ["SetV", "SetPk", "Sp", "Expunge", "Expire", "Refresh", "Get", "Close", "MakeTransient", "Fail", "Redo", "Misuse"]
+DEV_ALL = ["a", "b", "c", "d", "e", "f2", "g", "h", "gsw", "eoc", "ksw", "kswx", "kswmerge"]
 
 
 def q(s):
@@ -71,9 +71,6 @@ def probe_deviations(workdir):
         _, o = run([("Add", "o1"), ("Commit", None), ("Delete", "o1"), ("Get", 1)])
         if evs(o).get("persistent_to_deleted", 0) > 1:
             dev.add("e")
-        _, o = run([("Add", "o1"), ("Flush", None), ("Delete", "o1"), ("Flush", None), ("Rollback", None)])
-        if evs(o).get("deleted_to_detached") and o["o"]["o1"]["life"] == "transient":
-            dev.add("f1")
         _, o = run([("Add", "o1"), ("Flush", None), ("Expunge", "o1"), ("Rollback", None)])
         if evs(o).get("persistent_to_transient"):
             dev.add("f2")
@@ -102,3 +99,210 @@ def probe_deviations(workdir):
     finally:
         r.close()
     return dev
+
+
+# ---------------------------------------------------------------------------------------------- pipeline
+import json
+import random
+import time
+from concurrent.futures import ThreadPoolExecutor
+
+# deviation -> what it is (shown in violation text; the precise description lives in known_findings.d and notes/OrmSession.md)
+DEV_WHAT = {
+    "a": "stale _deleted flag: add; flush; delete; flush; rollback leaves the transient object with _deleted=True, re-add + flush reports it deleted while it is in the identity map with a live row",
+    "b": "Session.close() with an object whose DELETE was flushed leaves it in the deleted state bound to the closed session (no deleted_to_detached)",
+    "c": "Session.delete() of an object that already was deleted (deleted state, or detached with was_deleted) puts a deleted object back into the identity map",
+    "d": "deleted_to_persistent fires on rollback / failed flush for an object that was only marked with delete() (never flushed)",
+    "e": "persistent_to_deleted fires twice when get() refreshes an expired identity-map entry that the autoflush just deleted",
+    "f2": "rollback of add; flush; expunge announces persistent_to_transient (deleted_to_detached) for an object that already is detached",
+    "g": "expunge() of a deleted object inside a savepoint leaves it in the outer transaction's snapshot: commit fires deleted_to_detached again for the detached object (make_transient + rollback raises)",
+    "h": "rollback fires pending_to_transient for an object make_transient() already sent to transient",
+    "gsw": "Session.get() on an expired entry whose row is switched to another object by the autoflush returns the old object (deleted state, refreshed from the other object's row) instead of the identity map's object",
+    "eoc": "expire_on_commit=False: delete(o); commit() leaves o in the deleted state bound to the session; deleted_to_detached never fires",
+    "ksw": "rollback of a transaction that inserted an object and switched its primary key restores the old key on the now transient object: it ends detached with the identity of a row that does not exist",
+    "kswx": "rollback of a primary key switch re-inserts an object into the identity map that was expunged since: a detached object in the identity map, get() raises DetachedInstanceError",
+    "kswmerge": "committing a savepoint overwrites the outer transaction's record of an object's original key: after pk 1->2 (outer), 2->1 (savepoint, released), rollback restores key 2 while the row is back at 1",
+}
+
+
+def mk_cfg(cs, invs=(), props=(), emit=False):
+    return tlc.cfg(constants=cs, init="InitEmit" if emit else "Init", invariants=list(invs), properties=list(props), view="View",
+                   action_constraints=["Emit"] if emit else [], constraints=["Depth"])
+
+
+def fmt_walk(acts):
+    return " ".join("%s(%s)->%s" % (a["a"], ",".join(str(x) for x in a["arg"]), a["ret"] if isinstance(a["ret"], str) else "/".join(a["ret"]))
+                    for a in acts)
+
+
+def simulate_graph(cs, workdir, num, depth, seed):
+    """deep random behaviours: TLC -simulate prints the edges of each behaviour in order (workers 1); returns (graph, walks)"""
+    cs = dict(cs, MaxDepth=depth)
+    cfgt = mk_cfg(cs, emit=True)
+    r = tlc.run(SPEC, cfgt, workdir, workers=1, timeout=900, simulate="num=%d" % num,
+                extra=["-depth", str(depth), "-seed", str(seed)], keep_stdout=False, heap="4g")
+    # in simulation mode TLC evaluates the action constraint for every candidate successor of the current state: the output
+    # is a sequence of batches (same `from`); the behaviour took the candidate whose `to` is the next batch's `from`
+    g = graph.Graph()
+    batches = []
+    for o in r.json:
+        if "init" in o:
+            k = graph.key(o["init"])
+            g.states.setdefault(k, o["init"])
+            g.out.setdefault(k, [])
+            if k not in g.inits:
+                g.inits.append(k)
+        elif "from" in o:
+            fk = graph.key(o["from"])
+            g.add_edge(o["from"], dict(o["act"], obs=o["obs"]), o["to"])
+            ei = len(g.edges) - 1
+            lab = (o["act"]["a"], json.dumps(o["act"]["arg"]))
+            if batches and batches[-1][0] == fk and lab not in batches[-1][2]:      # a repeated label = next step (self-loop taken)
+                batches[-1][1].append(ei)
+                batches[-1][2].add(lab)
+            else:
+                batches.append((fk, [ei], {lab}))
+    walks = []
+    cur = None
+    for i, (fk, eis, _labs) in enumerate(batches):
+        if fk in g.inits or cur is None:
+            cur = []
+            walks.append(cur)
+        nxt = batches[i + 1][0] if i + 1 < len(batches) else None
+        chosen = [ei for ei in eis if g.edges[ei][2] == nxt]
+        if chosen and nxt not in g.inits:
+            cur.append(chosen[0])
+        else:
+            cur.append(eis[len(eis) // 2])      # last step of the behaviour: any candidate is an edge of the spec
+            cur = None
+    walks = [w for w in walks if w and g.edges[w[0]][0] in g.inits
+             and all(g.edges[w[i]][2] == g.edges[w[i + 1]][0] for i in range(len(w) - 1))]
+    return g, walks
+
+
+def run_property(chk, pid, P):
+    """P: dict(cfgs=[...], mech_invs, mech_props, abs_invs, abs_props, devs={d: cfg overrides}, footprint=[...], nontrivial=fn(edge))"""
+    from checks.ormsession_driver import Driver
+    rng = random.Random(chk.seed)
+    t0 = time.time()
+    dev_real = probe_deviations(chk.work)
+    known_devs = set(DEV_ALL)
+    tot = dict(states=0, transitions=0, edges=0, walks=0, steps=0, random_walks=0, tlc_runs=0)
+    cov = {}
+    samples = []
+    plans = {}
+    jobs = []
+    pool = ThreadPoolExecutor(max_workers=max(2, tlc.NPROC // 2))
+    nwork = [0]
+
+    def wd(tag):
+        nwork[0] += 1
+        return os.path.join(chk.work, "%s_%d" % (tag, nwork[0]))
+
+    # --- abstract layer: the property's invariants on the ideal mechanism (must hold) and on ideal + one deviation at a time
+    for c in P["cfgs"]:
+        cs = consts(c["objs"], c["maxsp"], c["ideal_depth"], c["eoc"], c["acts"], [])
+        jobs.append(("ideal", c["name"], None, pool.submit(
+            tlc.run, SPEC, mk_cfg(cs, P["abs_invs"] + P["mech_invs"], P["abs_props"] + P["mech_props"]), wd("ideal"),
+            workers=max(2, tlc.NPROC // 4), timeout=1500, keep_stdout=True, heap="4g")))
+    for d, c in P["devs"].items():
+        if d not in dev_real:
+            continue
+        cs = consts(c.get("objs", 2), c.get("maxsp", 1), c.get("depth", 8), c.get("eoc", True), c["acts"], [d])
+        jobs.append(("dev", d, c, pool.submit(
+            tlc.run, SPEC, mk_cfg(cs, P["abs_invs"], P["abs_props"]), wd("dev_" + d), workers=2, timeout=900, keep_stdout=True, heap="2g")))
+
+    # --- mechanism layer: graph with the deviations the code shows, every edge replayed
+    for c in P["cfgs"]:
+        cs = consts(c["objs"], c["maxsp"], c["depth"], c["eoc"], c["acts"], dev_real & known_devs)
+        tg = time.time()
+        g = graph.dump(SPEC, mk_cfg(cs, P["mech_invs"], P["mech_props"], emit=True), wd("graph"), timeout=3000, heap="6g")
+        r = g.tlc
+        tot["t_graph"] = round(tot.get("t_graph", 0) + time.time() - tg, 1)
+        tot["tlc_runs"] += 1
+        tot["states"] += r.distinct
+        tot["transitions"] += r.generated
+        tot["edges"] += len(g.edges)
+        if r.violated:
+            chk.violation({"spec": SPEC, "action": "TLC", "kind": "mechanism", "invariant": str(r.violated), "cfg": c["name"]},
+                          "TLC: %s violated in OrmSession.tla with the deviations the code shows (cfg %s): %s" % (
+                              r.violated, c["name"], " ".join(trace_actions(r.stdout))))
+        for e in g.edges:
+            cov[e[1]["a"]] = cov.get(e[1]["a"], 0) + 1
+        walks, plan = graph.plan_tours(g, c["depth"], rng)
+        extra = graph.random_walks(g, c.get("random", 200), c["depth"], rng)
+        plans[c["name"]] = plan
+        eoc = c["eoc"]
+        tr = time.time()
+        steps, mism = graph.replay(g, walks + extra, lambda wid, w, eoc=eoc: Driver(wid, w, eoc=eoc), wd("replay"), nproc=16)
+        tot["t_replay"] = round(tot.get("t_replay", 0) + time.time() - tr, 1)
+        tot["walks"] += len(walks)
+        tot["random_walks"] += len(extra)
+        tot["steps"] += steps
+        report_mismatches(chk, mism, c["name"])
+        if walks:
+            for w in (walks[len(walks) // 2], walks[-1]):
+                samples.append(fmt_walk([g.edges[ei][1] for ei in w]))
+        tot.setdefault("nontrivial", 0)
+        tot["nontrivial"] += sum(1 for e in g.edges if P["nontrivial"](g.states[e[0]], e[1]))
+        # deeper random behaviours (TLC -simulate), replayed the same way
+        if c.get("sim"):
+            num, depth = c["sim"]
+            ts = time.time()
+            g2, w2 = simulate_graph(cs, wd("sim"), num, depth, chk.seed + 1)
+            tot["t_sim"] = round(tot.get("t_sim", 0) + time.time() - ts, 1)
+            steps2, mism2 = graph.replay(g2, w2, lambda wid, w, eoc=eoc: Driver(wid, w, eoc=eoc), wd("replay"), nproc=16)
+            tot["random_walks"] += len(w2)
+            tot["steps"] += steps2
+            tot["tlc_runs"] += 1
+            tot["deep_walk_steps"] = tot.get("deep_walk_steps", 0) + steps2
+            report_mismatches(chk, mism2, c["name"] + "/deep")
+            for e in g2.edges:
+                cov[e[1]["a"]] = cov.get(e[1]["a"], 0) + 1
+        del g
+    for a in P["footprint"]:
+        if not cov.get(a):
+            chk.machinery("vacuous: action %s of the property's footprint never taken" % a)
+
+    # --- collect the abstract-layer runs
+    dev_hits = {}
+    tc = time.time()
+    for kind, name, c, fut in jobs:
+        r = fut.result()
+        tot["tlc_runs"] += 1
+        if kind == "ideal":
+            tot["ideal_states"] = tot.get("ideal_states", 0) + r.distinct
+            tot["ideal_transitions"] = tot.get("ideal_transitions", 0) + r.generated
+            if r.violated:
+                tr = trace_actions(r.stdout)
+                chk.violation({"spec": SPEC, "action": "TLC", "kind": "unattributed", "invariant": str(r.violated), "cfg": name},
+                              "TLC: %s violated by the mechanism WITHOUT any named deviation (cfg %s): %s" % (r.violated, name, " ".join(tr)),
+                              {"trace": tr})
+        else:
+            inv = str(r.violated) if r.violated else None
+            if inv is None:
+                chk.notes.append("deviation %s present in the code but not visible to %s's invariants within the bound" % (name, pid))
+                continue
+            m = re.search(r"(?:Invariant|Action property|property) (\w+)", inv)
+            inv = m.group(1) if m else inv
+            tr = trace_actions(r.stdout)
+            dev_hits[name] = inv
+            chk.violation({"spec": SPEC, "action": "TLC", "kind": "deviation", "deviation": name, "invariant": inv},
+                          "%s fails: %s  [shortest history: %s]" % (inv, DEV_WHAT.get(name, name), " ".join(tr)), {"trace": tr, "deviation": name})
+    pool.shutdown()
+    tot["t_wait_abstract"] = round(time.time() - tc, 1)
+    unknown = dev_real - known_devs
+    if unknown:
+        chk.machinery("probe reported unknown deviations %r" % sorted(unknown))
+    return tot, cov, samples, plans, dev_real, dev_hits
+
+
+def report_mismatches(chk, mism, cfgname):
+    for m in mism:
+        act = m["act"] if isinstance(m["act"], dict) else {"a": m["act"], "arg": [], "ret": None}
+        walk = m["walk"]
+        chk.violation({"spec": SPEC, "action": act["a"], "kind": "conformance", "ret": act.get("ret") if isinstance(act.get("ret"), str) else "composite",
+                       "cfg": cfgname},
+                      "real Session diverges from OrmSession.tla at step %d of [%s]: %s" % (
+                          m["step"], fmt_walk([a for a in walk if isinstance(a, dict)]), m["mismatch"][:700]),
+                      {"walk": [dict(a=a["a"], arg=a["arg"], ret=a["ret"]) for a in walk if isinstance(a, dict)], "mismatch": m["mismatch"], "cfg": cfgname})
